@@ -71,7 +71,7 @@ def lean_ty(t):
             return "(" + " → ".join([lean_ty(a) for a in t[1]] + [res]) + ")"
     return {"int": "Int", "bool": "Bool", "str": "Str", "bytes": "(List Nat)", "row": "Row", "frag": "Fragment", "gap": "Gap",
             "ovres": "OverlapResult", "scaffold": "Scaffold", "bytesio": "PyRt.BytesIO", "unit": "Unit", "sink_str": "Str",
-            "sink_bytes": "(List Nat)", "nat": "Nat", "trtable": "(Char → Char)", "fastainfo": "FastaInfo", "ovref": "Nat", "premise": "Premise", "store": "(List Res)", "scref": "Nat", "ffref": "Nat", "found": "Found", "namer": "PyRt.SrcNamer"}[t]
+            "sink_bytes": "(List Nat)", "nat": "Nat", "trtable": "(Char → Char)", "fastainfo": "FastaInfo", "ovref": "Nat", "premise": "Premise", "store": "(List Res)", "scref": "Nat", "ffref": "Nat", "found": "Found", "namer": "PyRt.SrcNamer", "lref": "Nat"}[t]
 
 
 # OBJECT TABLE: (type, python attribute) -> (result type, lean template, may raise)
@@ -145,6 +145,7 @@ PURE_METHOD = {("frag", "abuts"): (["frag"], "bool", "(Fragment.abuts {0} {1})")
                ("bytesio", "getvalue"): ([], "bytes", "({0}).data"),
                ("ovres", "fragments"): ([], L("frag"), "(fragmentsOf {0}.rows)"),
                ("scaffold", "fragment_tags"): ([], ("set", "str"), "(Scaffold.fragmentTags {0})"),
+               ("scaffold", "idx_fragments"): ([], L(("tuple", ["int", "frag"])), "(PyRt.idxFragments {0}.rows)"),
                ("str", "lower"): ([], "str", "(lowerStr {0})")}
 # methods that read (may raise): (type, method) -> (arg types, result type, template of an R-term)
 IMPURE_METHOD = {("ovres", "overhang_if_start_removed"): ([], "int", "(OverlapResult.overhangIfStartRemoved {0})"),
@@ -212,6 +213,8 @@ def assigned(stmts):
                         add(dotted(t).replace(".", "_"))          # an attribute path that is a declared root variable
                     if isinstance(t, ast.Attribute) and t.attr in LABEL_FIELD:
                         add("store")
+                    if isinstance(t, ast.Attribute) and t.attr in ("rank", "tag", "haplotype", "input_predecessor"):
+                        add("heap_lo")
             if isinstance(n, ast.Call) and isinstance(n.func, ast.Attribute) and n.func.attr == "append" and isinstance(n.func.value, ast.Call) \
                     and isinstance(n.func.value.func, ast.Attribute) and n.func.value.func.attr == "setdefault" and dotted(n.func.value.func.value):
                 add(dotted(n.func.value.func.value).replace(".", "_"))
@@ -234,52 +237,57 @@ def assigned(stmts):
                         add(r)
             elif isinstance(n, ast.Yield):
                 add("yielded_")
-            elif isinstance(n, ast.Call) and isinstance(n.func, ast.Attribute) and n.func.attr in ("add_header_line", "add_scaffold") and dotted(n.func.value):
+            if isinstance(n, ast.Call) and isinstance(n.func, ast.Attribute) and n.func.attr in ("add_header_line", "add_scaffold") and dotted(n.func.value):
                 add(dotted(n.func.value) + "_" + ("header" if n.func.attr == "add_header_line" else "scaffolds"))
-            elif isinstance(n, ast.Call) and isinstance(n.func, ast.Attribute) and n.func.attr in SELF_KERNELS:
+            if isinstance(n, ast.Call) and isinstance(n.func, ast.Attribute) and n.func.attr in SELF_KERNELS:
                 add("self")
-            elif isinstance(n, ast.Call) and isinstance(n.func, ast.Attribute) and n.func.attr in ("make_scaffold_name", "label_scaffold", "rename_unlocs_by_size", "rename_haplotigs_by_size", "rename_by_size",
+            if isinstance(n, ast.Call) and isinstance(n.func, ast.Attribute) and n.func.attr in ("make_scaffold_name", "label_scaffold", "rename_unlocs_by_size", "rename_haplotigs_by_size", "rename_by_size",
                                                                                               "find_overlaps", "trim_large_overhangs", "store_fragments_found", "cut_fragments"):
                 for r in ("store", "self_scaffold_namer", "heap_ff", "self_found_fragments", "self_fragments_found_more_than_once", "nextOid", "self_assembly_stats_cuts"):
                     add(r)
-            elif isinstance(n, ast.Call) and isinstance(n.func, ast.Attribute) and n.func.attr == "add_scaffold" and dotted(n.func) == "self.add_scaffold":
+            if isinstance(n, ast.Call) and isinstance(n.func, ast.Attribute) and n.func.attr == "add_scaffold" and dotted(n.func) == "self.add_scaffold":
                 add("store")
-            elif isinstance(n, ast.Call) and isinstance(n.func, ast.Attribute) and n.func.attr == "setdefault":
+                add("added_lo")
+            if isinstance(n, ast.Call) and isinstance(n.func, ast.Attribute) and n.func.attr == "setdefault":
                 r = root_of(n.func.value)
                 if r:
                     add(r)
-            elif isinstance(n, ast.Call) and isinstance(n.func, ast.Name) and n.func.id == "Scaffold":
+            if isinstance(n, ast.Call) and isinstance(n.func, ast.Name) and n.func.id == "Scaffold":
                 add("heap_sc")
-            elif isinstance(n, ast.Call) and isinstance(n.func, ast.Name) and n.func.id == "FoundFragment":
+                add("heap_lo")
+            if isinstance(n, ast.Call) and isinstance(n.func, ast.Name) and n.func.id == "Scaffold" and False:
+                pass
+            if isinstance(n, ast.Call) and isinstance(n.func, ast.Name) and n.func.id == "FoundFragment":
                 add("heap_ff")
-            elif isinstance(n, ast.Call) and isinstance(n.func, ast.Attribute) and n.func.attr in ("add_scaffold", "remove_scaffold"):
+            if isinstance(n, ast.Call) and isinstance(n.func, ast.Attribute) and n.func.attr in ("add_scaffold", "remove_scaffold"):
                 add("heap_ff")
-            elif isinstance(n, ast.Call) and isinstance(n.func, ast.Attribute) and n.func.attr in ("add_overhang_premise", "make_fixes"):
+            if isinstance(n, ast.Call) and isinstance(n.func, ast.Attribute) and n.func.attr in ("add_overhang_premise", "make_fixes"):
                 add("store")
                 r = root_of(n.func.value)
                 if r:
                     add(r)
-            elif isinstance(n, ast.Call) and isinstance(n.func, ast.Name) and n.func.id == "Fragment":
+            if isinstance(n, ast.Call) and isinstance(n.func, ast.Name) and n.func.id == "Fragment":
                 add("nextOid")
-            elif isinstance(n, ast.Call) and isinstance(n.func, ast.Attribute) and n.func.attr in ("apply", "trim_fragment"):
+            if isinstance(n, ast.Call) and isinstance(n.func, ast.Attribute) and n.func.attr in ("apply", "trim_fragment"):
                 add("store")
                 if n.func.attr == "trim_fragment":
                     add("nextOid")
             elif isinstance(n, (ast.Assign, ast.AugAssign)) and False:
                 pass
-            elif isinstance(n, ast.Call) and isinstance(n.func, ast.Name) and n.func.id == "compare_func":
+            if isinstance(n, ast.Call) and isinstance(n.func, ast.Name) and n.func.id == "compare_func":
                 add("over_pairs")
             elif isinstance(n, ast.For):
                 for el in (n.target.elts if isinstance(n.target, ast.Tuple) else [n.target]):
                     if isinstance(el, ast.Name):
                         add(el.id)
-            elif isinstance(n, ast.Call) and isinstance(n.func, ast.Attribute) and n.func.attr in (
+            if isinstance(n, ast.Call) and isinstance(n.func, ast.Attribute) and n.func.attr in (
                     "pop", "append", "extend", "write", "seek", "read", "discard_start", "discard_end", "add_row", "add", "insert"):
                 r = root_of(n.func.value)
                 if r:
                     add(r)
                 if n.func.attr == "add_row":
                     add("heap_sc")
+                    add("heap_lo")
     return out
 
 
@@ -292,6 +300,7 @@ class Kernel:
         self.roots = []             # mutable roots returned with the value: [(python name, type)]
         self.ret_ty = None          # type of the returned value ("unit" if none)
         self.aliases = {}           # local name -> root name (e.g. out -> self.out sink)
+        self.let_log = []           # every name bound by a generated `let` (safety net for loop states / joins, see check_carried)
 
     def fresh(self, base="t"):
         self.tmp += 1
@@ -335,7 +344,7 @@ class Kernel:
             return f"(!({term}).isEmpty)"
         if ty == "int":
             return f"(decide ({term} ≠ 0))"
-        if isinstance(ty, tuple) and ty[0] == "opt" and (ty[1] in ("frag", "gap", "row", "scaffold", "ovres", "fastainfo", "scref", "ffref", "ovref") or (isinstance(ty[1], tuple) and ty[1][0] == "match")):
+        if isinstance(ty, tuple) and ty[0] == "opt" and (ty[1] in ("frag", "gap", "row", "scaffold", "ovres", "fastainfo", "scref", "ffref", "ovref", "lref") or (isinstance(ty[1], tuple) and ty[1][0] == "match")):
             return f"({term}).isSome"
         if isinstance(ty, tuple) and ty[0] == "opt" and ty[1] == "int":
             # `if g := a.gap_between(b):` — None and 0 are both false
@@ -716,6 +725,11 @@ class Kernel:
                 binds.append((v, term, rty))
                 return v, rty
             return term, rty
+        if dotted(f) == "self.input_predecessor" and len(e.args) == 2 and not e.keywords and self.spec.get("build_assembly"):
+            (a, ta), (b, tb) = self.expr(e.args[0], env, binds), self.expr(e.args[1], env, binds)
+            nm = self.fresh("ip")
+            binds.append((nm, f"(BuildAssembly_input_predecessor {self.coerce(a, ta, 'scaffold')} {self.coerce(b, tb, 'int')})", O(("tuple", ["row", L("row")]))))
+            return nm, O(("tuple", ["row", L("row")]))
         if dotted(f) in ("re.match", "re.fullmatch", "re.search") and len(e.args) == 2 and not e.keywords and isinstance(e.args[0], ast.Constant) and isinstance(e.args[0].value, str):
             pat = e.args[0].value
             if pat not in REGEX or REGEX[pat][2] != dotted(f)[3:]:
@@ -784,6 +798,29 @@ class Kernel:
                 raise Unsupported("OverhangResolver(error_length) type")
             self.resolver_err = t
             return "[]", ("dict", KEY_T, L("premise"))
+        if isinstance(f, ast.Name) and f.id == "Scaffold" and len(e.args) == 1 and not e.keywords and "heap_lo" in env:
+            t, ty = self.expr(e.args[0], env, binds)
+            if ty != "str":
+                raise Unsupported("Scaffold(name) type")
+            r = self.fresh("ref")
+            binds.append((r, "heap_lo.length", "lref", "let"))
+            binds.append(("heap_lo", f"(heap_lo ++ [(({{ name := {t} }} : Scaffold), none)])", L(LO_T), "let"))
+            return r, "lref"
+        if isinstance(f, ast.Name) and f.id == "all" and len(e.args) == 1 and isinstance(e.args[0], ast.GeneratorExp) and not e.keywords:
+            g = e.args[0]
+            if len(g.generators) != 1 or g.generators[0].ifs or not isinstance(g.generators[0].target, ast.Name):
+                raise Unsupported("all() shape")
+            src, ts = self.expr(g.generators[0].iter, env, binds)
+            if not (isinstance(ts, tuple) and ts[0] == "list"):
+                raise Unsupported("all() over a non-list")
+            x = g.generators[0].target.id
+            env2 = dict(env)
+            env2[x] = ts[1]
+            sub = []
+            c, tc = self.expr(g.elt, env2, sub)
+            if sub:
+                raise Unsupported("impure all() element")
+            return f"(({src}).all (fun ({mg(x)} : {lean_ty(ts[1])}) => {self.truthy(c, tc)}))", "bool"
         if isinstance(f, ast.Name) and f.id == "Scaffold" and len(e.args) == 1 and not e.keywords and "heap_sc" in env:
             # a NEW Scaffold object: allocated in the arena of scaffolds, the value is a reference to it
             t, ty = self.expr(e.args[0], env, binds)
@@ -1131,6 +1168,7 @@ class Kernel:
         return out + lines
 
     def let(self, name, ty, term):
+        self.let_log.append(name)
         return f"let {mg(name)} : {lean_ty(ty)} := {term}"
 
     def block(self, stmts, env, loop):
@@ -1222,6 +1260,13 @@ class Kernel:
         if isinstance(s, ast.For):
             return self.loop_stmt(s, rest, env, loop, is_for=True)
         raise Unsupported(type(s).__name__)
+
+    def check_carried(self, start, env_before, carried, what):
+        """SAFETY NET of the translator itself: a variable that exists before a loop / a joined `if` and is re-bound inside it must be among the
+        variables the loop state / the join carries out — otherwise the generated code would silently drop the assignment"""
+        lost = sorted({n for n in self.let_log[start:] if n in env_before} - set(carried))
+        if lost:
+            raise Unsupported(f"internal: {what} does not carry the assigned variable(s) {lost}")
 
     def declared(self, name, ty):
         d = self.spec.get("locals", {}).get(name)
@@ -1322,6 +1367,18 @@ class Kernel:
             t, ty = self.expr(s.value, env, binds)
             l, env2 = self.bind_var(tg.id, t, ty, env)
             return self.with_binds(binds, [l] + self.block(rest, env2, loop))
+        if isinstance(tg, ast.Attribute) and isinstance(tg.value, ast.Name) and env.get(tg.value.id) == "lref" and "heap_lo" in env \
+                and tg.attr in ("rank", "tag", "haplotype", "input_predecessor"):
+            r = mg(tg.value.id)
+            if tg.attr == "input_predecessor":
+                t, ty = self.expr(s.value, env, binds)
+                val = self.coerce(t, ty, O(("tuple", ["row", L("row")])))
+                upd = f"PyRt.loSetPred heap_lo {r} {val}"
+            else:
+                t, ty = self.expr(s.value, env, binds)
+                want = {"rank": "int", "tag": O("str"), "haplotype": O("str")}[tg.attr]
+                upd = f"PyRt.loSet heap_lo {r} (fun sc => {{ sc with {tg.attr} := {self.coerce(t, ty, want)} }})"
+            return self.with_binds(binds, [self.let("heap_lo", L(LO_T), upd)] + self.block(rest, env, loop))
         if isinstance(tg, ast.Attribute) and isinstance(tg.value, ast.Name) and env.get(tg.value.id) == "ovref" and tg.attr in LABEL_FIELD and "store" in env:
             fld, pty, conv = LABEL_FIELD[tg.attr]
             t, ty = self.expr(s.value, env, binds)
@@ -1452,12 +1509,16 @@ class Kernel:
             if tk != td[1] or L(tv) != td[2]:
                 raise Unsupported("setdefault(...).append types")
             return self.with_binds(binds, [self.let(d, td, f"dSet {d} {k} (((dGet? {d} {k}).getD []) ++ [{v}])")] + self.block(rest, env, loop))
-        if isinstance(f, ast.Attribute) and "store" in env and dotted(f.value) in self.aliases and env.get(self.aliases[dotted(f.value)]) == "namer" \
-                or (isinstance(f, ast.Attribute) and "store" in env and dotted(f.value) and dotted(f.value).replace(".", "_") in env and env[dotted(f.value).replace(".", "_")] == "namer"):
+        if isinstance(f, ast.Attribute) and dotted(f.value) in self.aliases and env.get(self.aliases[dotted(f.value)]) == "namer" \
+                or (isinstance(f, ast.Attribute) and dotted(f.value) and dotted(f.value).replace(".", "_") in env and env[dotted(f.value).replace(".", "_")] == "namer"):
             # a method of the ScaffoldNamer object held by a root variable: a call of the translated kernel (defined earlier in this file)
             nv = self.aliases.get(dotted(f.value), dotted(f.value).replace(".", "_"))
             m = f.attr
             kw = {k.arg: k.value for k in c.keywords}
+            if m == "make_scaffold_name" and len(c.args) == 1 and not kw and isinstance(c.args[0], ast.Name) and env.get(c.args[0].id) == "lref" and "heap_lo" in env:
+                nm = self.fresh("nk")
+                binds.append((nm, f"(ScaffoldNamer_make_scaffold_name {nv} (PyRt.loGet heap_lo {mg(c.args[0].id)}).1 none)", "namer"))
+                return self.with_binds(binds, [self.let(nv, "namer", nm)] + self.block(rest, env, loop))
             if m == "make_scaffold_name" and len(c.args) == 2 and not kw:
                 (a, ta), (b, tb) = self.expr(c.args[0], env, binds), self.expr(c.args[1], env, binds)
                 nm = self.fresh("nk")
@@ -1584,6 +1645,13 @@ class Kernel:
                 obj = self.aliases.get(f.value.id, f.value.id)
                 n, tn = self.expr(c.args[0], env, binds)
                 return self.with_binds(binds, [self.let(obj, "bytesio", f"PyRt.BytesIO.seek {mg(obj)} {n}")] + self.block(rest, env, loop))
+            if isinstance(f.value, ast.Name) and env.get(f.value.id) == "lref" and m == "add_row" and len(c.args) == 1 and "heap_lo" in env:
+                v, tv = self.expr(c.args[0], env, binds)
+                row = self.coerce_elem(v, tv, "row")
+                return self.with_binds(binds, [self.let("heap_lo", L(LO_T), f"PyRt.loSet heap_lo {mg(f.value.id)} (fun sc => {{ sc with rows := sc.rows ++ [{row}] }})")]
+                                       + self.block(rest, env, loop))
+            if dotted(f) == "self.add_scaffold" and len(c.args) == 1 and "heap_lo" in env and isinstance(c.args[0], ast.Name) and env.get(c.args[0].id) == "lref":
+                return self.with_binds(binds, [self.let("added_lo", L("lref"), f"(added_lo ++ [{mg(c.args[0].id)}])")] + self.block(rest, env, loop))
             if isinstance(f.value, ast.Name) and env.get(f.value.id) == "ffref" and m in ("add_scaffold", "remove_scaffold") and len(c.args) == 1 and "heap_ff" in env:
                 # FoundFragment.add_scaffold / remove_scaffold through a reference: `self.scaffolds.append(x)` / `self.scaffolds.remove(x)` (ValueError if absent)
                 v, tv = self.expr(c.args[0], env, binds)
@@ -1675,10 +1743,17 @@ class Kernel:
 
         def opt_obj(n):
             return isinstance(n, ast.Name) and isinstance(env.get(n.id), tuple) and env[n.id][0] == "opt" \
-                and (env[n.id][1] in ("frag", "gap", "row", "scaffold", "ovres", "fastainfo", "scref", "ffref", "ovref") or (isinstance(env[n.id][1], tuple) and env[n.id][1][0] == "match") or (isinstance(env[n.id][1], tuple) and env[n.id][1][0] == "tuple" and env[n.id][1][1]))
+                and (env[n.id][1] in ("frag", "gap", "row", "scaffold", "ovres", "fastainfo", "scref", "ffref", "ovref", "lref") or (isinstance(env[n.id][1], tuple) and env[n.id][1][0] == "match") or (isinstance(env[n.id][1], tuple) and env[n.id][1][0] == "tuple" and env[n.id][1][1]))
         if isinstance(test, ast.UnaryOp) and isinstance(test.op, ast.Not) and opt_obj(test.operand):
             isnone = ast.Compare(left=ast.Name(id=test.operand.id, ctx=ast.Load()), ops=[ast.Is()], comparators=[ast.Constant(value=None)])
             return self.if_stmt(ast.If(test=isnone, body=s.body, orelse=s.orelse), rest, env, loop)
+        if isinstance(test, ast.BoolOp) and isinstance(test.op, ast.And) and isinstance(test.values[0], ast.Compare) and len(test.values[0].ops) == 1 \
+                and isinstance(test.values[0].ops[0], ast.IsNot) and isinstance(test.values[0].comparators[0], ast.Constant) and test.values[0].comparators[0].value is None \
+                and isinstance(test.values[0].left, ast.Name):
+            others = test.values[1:]
+            inner_test = others[0] if len(others) == 1 else ast.BoolOp(op=ast.And(), values=others)
+            inner = ast.If(test=inner_test, body=s.body, orelse=s.orelse)
+            return self.if_stmt(ast.If(test=test.values[0], body=[inner], orelse=s.orelse), rest, env, loop)
         if opt_obj(test) or (isinstance(test, ast.BoolOp) and isinstance(test.op, ast.And) and opt_obj(test.values[0])):
             x = test if isinstance(test, ast.Name) else test.values[0]
             notnone = ast.Compare(left=ast.Name(id=x.id, ctx=ast.Load()), ops=[ast.IsNot()], comparators=[ast.Constant(value=None)])
@@ -1704,8 +1779,10 @@ class Kernel:
                 b = self.block(list(s.orelse) + rest, env, loop)
                 return self.with_binds(binds, [f"if {c} = true then"] + ind(a) + ["else"] + ind(b))
             saved = self.ret_ty
+            log0 = len(self.let_log)
             a = self.block_join(list(s.body), env, join)
             b = self.block_join(list(s.orelse), env, join)
+            self.check_carried(log0, env, [n for n, _ in join], "the joined `if`")
             nm = self.fresh("j")
             head = [f"(if {c} = true then"] + ind(a) + ["else"] + ind(b) + [f") >>= fun ({nm} : {self.state_ty(join)}) =>"]
             lets = []
@@ -1733,7 +1810,7 @@ class Kernel:
         # reuse `block` with a pseudo-loop whose `.next state` we unwrap: simpler — translate with a special finish
         saved_finish = self.finish
         try:
-            self.finish = lambda env2, loop2: [f".ok {self.state_term(env2, join)}"]
+            self.finish = lambda env2, loop2: ([f".ok {self.state_term(env2, join)}"] if loop2 is None else saved_finish(env2, loop2))
             return self.block(stmts, env, None)
         finally:
             self.finish = saved_finish
@@ -1763,7 +1840,9 @@ class Kernel:
             if n in env and n not in [x for x, _ in state] and not (is_for and n in self.for_targets(s)):
                 state.append((n, env[n]))
         # variables first assigned inside the loop and used afterwards are not supported (Lean reports the unbound name)
+        log0 = len(self.let_log)
         body = self.block(list(s.body), env_body, state)
+        self.check_carried(log0, env, [n for n, _ in state] + (self.for_targets(s) if is_for else []), "the loop state")
         res = self.fresh("lp")
         rho = "_"
         if is_for:
@@ -1918,6 +1997,11 @@ def translate(spec):
         if spec.get("arena"):
             env["heap_sc"] = L("scaffold")
             k.roots.append(("heap_sc", L("scaffold")))
+        if spec.get("leftover_arena"):
+            env["heap_lo"] = L(LO_T)
+            k.roots.append(("heap_lo", L(LO_T)))
+            env["added_lo"] = L("lref")
+            k.roots.append(("added_lo", L("lref")))
         if spec.get("found_arena"):
             env["heap_ff"] = L("found")
             k.roots.append(("heap_ff", L("found")))
@@ -1954,7 +2038,7 @@ def translate(spec):
     if k.ret_ty != "unit":
         parts.append(lean_ty(k.ret_ty))
     rty = "Unit" if not parts else " × ".join(parts)
-    sink_inits = [f"  let {mg(n)} : {lean_ty(t)} := []" for n, t in k.roots if t in ("sink_str", "sink_bytes") or n == "yielded_" or n == "heap_sc" or n in spec.get("extra_roots", {}) or n in [p.replace(".", "_") for p in spec.get("init_empty", [])]]
+    sink_inits = [f"  let {mg(n)} : {lean_ty(t)} := []" for n, t in k.roots if t in ("sink_str", "sink_bytes") or n == "yielded_" or n == "heap_sc" or n in ("heap_lo", "added_lo") or n in spec.get("extra_roots", {}) or n in [p.replace(".", "_") for p in spec.get("init_empty", [])]]
     # parameter order = the order of the kernel's declaration (params, attr_params, opaque, then newOid): independent of the order of use
     order = ["store", "nextOid", "heap_ff"] + [p.replace(".", "_") for p in spec.get("dict_roots", {})] + [mg(n) for n in spec.get("params", {})] + [p.replace(".", "_") for p in spec.get("attr_params", {})] \
         + [p.replace(".", "_") for p in spec.get("opaque", {})] + ["newOid"]
@@ -2009,6 +2093,7 @@ IMP_KERNELS_3 = [
 ]
 
 KEY_T = ("tuple", ["str", "int", "int"])
+LO_T = ("tuple", ["scaffold", O(("tuple", ["row", L("row")]))])      # a left-over Scaffold object and its `input_predecessor` attribute
 IMP_KERNELS_4 = [
     # the eight one-line methods of the two premise classes (`self.scaffold` is a reference into the store)
     *[dict(file="assembly/build_utils.py", qual=f"{cls}.{m}", lean=f"{cls}_{m}", heap=True, returns="int", attr_params={"self.scaffold": "ovref"})
@@ -2078,6 +2163,12 @@ IMP_KERNELS_9 = [
          build_assembly=True, dict_roots={"self.fragments_found_more_than_once": FF_DICT, "self.assembly_stats.cuts": "int"}),
 ]
 
+IMP_KERNELS_10 = [
+    dict(file=BA, qual="BuildAssembly.add_missing_scaffolds_from_input", lean="BuildAssembly_add_missing_scaffolds_from_input", leftover_arena=True, build_assembly=True,
+         attr_params={"input_asm.scaffolds": L("scaffold"), "self.default_gap": "gap", "self.found_fragments": FF_DICT},
+         locals={"new_scffld": O("lref"), "last_added_i": O("int")}, dict_roots={"self.scaffold_namer": "namer"}),
+]
+
 IMP_KERNELS = [
     dict(file="assembly/indexed_assembly.py", qual="IndexedAssembly.find_overlaps", lean="IndexedAssembly_find_overlaps",
          params={"bait": "frag"}, returns=O("ovres"), locals={"ovr": O("int")},
@@ -2109,7 +2200,7 @@ IMP_KERNELS = [
 def main():
     parts = ["/- GENERATED by harness/translate_imp.py from /repo/src — do not edit -/", "import AgpTpf.Model.PyRt", "import AgpTpf.Model.PyRtHeap", "import AgpTpf.Model.Lookup",
              "import AgpTpf.Model.Fasta", "import AgpTpf.Model.Text", "set_option linter.unusedVariables false", "namespace AgpTpf.Gen.Imp", "open AgpTpf", ""]
-    for spec in IMP_KERNELS + IMP_KERNELS_2 + IMP_KERNELS_3 + IMP_KERNELS_4 + IMP_KERNELS_5 + IMP_KERNELS_6 + IMP_KERNELS_7 + IMP_KERNELS_8 + IMP_KERNELS_9:
+    for spec in IMP_KERNELS + IMP_KERNELS_2 + IMP_KERNELS_3 + IMP_KERNELS_4 + IMP_KERNELS_5 + IMP_KERNELS_6 + IMP_KERNELS_7 + IMP_KERNELS_8 + IMP_KERNELS_9 + IMP_KERNELS_10:
         parts.append(translate(spec))
     parts.append("end AgpTpf.Gen.Imp\n")
     txt = "\n".join(parts)
